@@ -396,7 +396,10 @@ class OrderingList(List[_T]):
             super().__setitem__(index, entity)  # type: ignore[assignment]
             self._reorder()
         else:
-            self._order_entity(int(index), entity, True)  # type: ignore[arg-type] # noqa: E501
+            i = int(index)
+            if i < 0:
+                i += len(self)
+            self._order_entity(i, entity, True)  # type: ignore[arg-type]
             super().__setitem__(index, entity)  # type: ignore[assignment]
 
     def __delitem__(self, index: Union[SupportsIndex, slice]) -> None:
